@@ -15,7 +15,7 @@ for ln in (0, 1, 15, 16, 17, 1008, 1023, 1024):
         h(f"dup_l{ln}_k{k}", f"check_dup({ln}, {k})", 23, (ln, k) in ((17, 7), (1023, 16), (1024, 1)))
 for ln in (0, 1, 2, 17, 33, 1024):
     for (n, m) in ((0, 1), (0, 16), (1, 1), (7, 9), (16, 16), (3, 16), (16, 1)):
-        h(f"exch_l{ln}_n{n}_m{m}", f"check_exchange({ln}, {n}, {m})", 23, (ln, n, m) in ((33, 7, 9),))
+        h(f"exch_l{ln}_n{n}_m{m}", f"check_exchange({ln}, {n}, {m})", 23, (ln, n, m) in ((33, 7, 9), (2, 7, 9)))
 for ln in (0, 1, 2, 17, 1024):
     for n in (1, 2, 16):
         h(f"swap_l{ln}_n{n}", f"check_swap({ln}, {n})", 23, (ln, n) in ((17, 16),))
